@@ -101,6 +101,21 @@ def fit_case(case):
             except Exception:  # noqa
                 pass
     model.fit(X, y)
+    if p["seed"] == 0 and n >= 2:
+        # event: a refit of the same object is REFUSED half-way (a kernel that rejects the data; a missing matrix with warnings as errors).  Whatever
+        # the object then exposes must still be one model: the checks below run on the state it is left in
+        import warnings
+        keep = model.get_params(deep=False)
+        for bad in ({"kernel": "chi2"}, {"kernel": "precomputed"}):
+            try:
+                with warnings.catch_warnings():
+                    warnings.simplefilter("error")
+                    model.set_params(**bad).fit(X - 10.0)
+            except Exception:  # noqa
+                pass
+        model.set_params(**keep)
+        if not hasattr(model, "tree_") or not hasattr(model, "labels_"):
+            return {"v": [], "nt": [], "stats": {"evals": 1, "refused_refit_left_no_model": 1}}
     t = model.tree_
     v = []
 
